@@ -125,6 +125,7 @@ func main() {
 	cases = append(cases, damagedInputs(e)...)
 	cases = append(cases, sameFile(e)...)
 	cases = append(cases, sameFileShellSpellings(e)...)
+	cases = append(cases, sameFileRemovedCwd(e)...)
 	cases = append(cases, keygenCases(e)...)
 	cases = append(cases, keygenRaceCases(e)...)
 	cases = append(cases, ptyCases(e)...)
